@@ -252,7 +252,75 @@ def obligations(prog):
     st = {"sites_scanned": len(sites), "armed_groups": len(groups), "armed_sites": sum(groups.values()),
           "sites_proved_now": len(sites) - len(unproved),
           "not_provable_sites": [s["id"] + " @" + s["loc"] + ": " + s["detail"] for s in unproved][:40]}
-    return obs, st
+    co = contract_obligations(prog)
+    st["contract_sites"] = len(co)
+    return obs + co, st
+
+
+def contract_obligations(prog):
+    """A copy whose length is a parameter fits its local array for every length the function's own contract admits: the
+    bound is the function's `VERIFY_CHECK(len <= C)` (read from the VERIFY variant of the same unit), the capacity is what
+    is left of the array behind the constant destination offset.  `rngseed[32 + 33 + 33 + 9]` for a header of up to 10
+    bytes is reported although no caller is examined."""
+    from core import props_of_function
+    try:
+        pv = program(getattr(prog, "config", "K0") or "K0", verify=True)
+    except AnalysisBroken:
+        raise
+    obs = []
+    for f in sorted(prog.functions.values(), key=lambda x: x.name):
+        if not f.blocks or not f.file.startswith("src/") or f.file.endswith("tests_impl.h"):
+            continue
+        fv = pv.functions.get(f.name)
+        if fv is None:
+            continue
+        bd = {}
+        for b in fv.blocks.values():
+            if b.cond is None or not b.term or not any("VERIFY_CHECK" in m for m in b.term.get("macros", [])):
+                continue
+            c, neg = strip(b.cond), False
+            while kind(c) == "un" and c[1] == "!":
+                c, neg = strip(c[2]), not neg
+            if neg and kind(c) == "bin" and c[1] in ("<=", "<") and kind(strip(c[2])) == "var" and strip(c[2])[1] in fv.param_index and int_val(c[3]) is not None:
+                bd[strip(c[2])[1]] = int_val(c[3]) - (1 if c[1] == "<" else 0)
+        if not bd:
+            continue
+        for el, c in f.all_calls():
+            if callee_name(c) not in ("memcpy", "memset", "memmove") or len(c[3]) != 3:
+                continue
+            ln = strip(c[3][2])
+            if kind(ln) != "var" or ln[1] not in bd or ln[1] not in f.param_index:
+                continue
+            for which, a in (("destination", c[3][0]),) + ((("source", c[3][1]),) if callee_name(c) != "memset" else ()):
+                root = lvalue_root(a)
+                cap = (f.vars.get(root[1]) or {}).get("array_n") if root is not None else None
+                ebytes = (f.vars.get(root[1]) or {}).get("bytes") if root is not None else None
+                if not cap:
+                    continue
+                # constant offset: sum of the integer addends of the pointer expression
+                off, ok_shape = 0, True
+                x = strip(a)
+                while kind(x) == "bin" and x[1] == "+":
+                    if int_val(x[3]) is not None:
+                        off += int_val(x[3])
+                        x = strip(x[2])
+                    elif int_val(x[2]) is not None:
+                        off += int_val(x[2])
+                        x = strip(x[3])
+                    else:
+                        ok_shape = False
+                        break
+                if not ok_shape or kind(x) not in ("decay", "var"):
+                    continue
+                esz = (ebytes // cap) if ebytes and cap else 1
+                room = (cap * esz) - off * esz
+                ok = bd[ln[1]] <= room
+                obs.append(Obligation("R-CAP", "R-CAP:contract:%s:%s:%s" % (f.name, root[1], which), el.loc, f.name,
+                                      "%s of `%s`: up to %d bytes (VERIFY_CHECK(%s <= %d)) must fit the %d bytes of %s behind offset %d"
+                                      % (which, show(c)[:60], bd[ln[1]], ln[1], bd[ln[1]], room, root[1], off), ok,
+                                      "%d <= %d" % (bd[ln[1]], room) if ok else "%d bytes admitted, %d available" % (bd[ln[1]], room),
+                                      props=props_of_function(f) | {"C07"}))
+    return obs
 
 
 # ------------------------------------------------------------------ R-RING
